@@ -13,7 +13,8 @@ from ..lib import e2
 from ..lib import lograce
 
 IMPORTS = ["Base", "Config", "Limiter", "Cond", "Template"]
-EXPRS_OK = ["a", "b", "s", "p.name", "d['k']", "len(s)", "a + b", "s.upper()", "lst[0]", "p", "d", "None", "a*2", "G", "(a,b)"]
+EXPRS_OK = ["a", "b", "s", "p.name", "d['k']", "len(s)", "a + b", "s.upper()", "lst[0]", "p", "d", "None", "a*2", "G", "(a,b)",
+            " a", " p.name ", "\tlen(s)", "  a + b"]          # blanks around a field's expression are legal (eval skips leading blanks)
 EXPRS_BAD = ["missing", "1/0", "d['nope']", "s.nope", "boom()", "lst[9]", "a +", "exit_()"]
 LITS = ["", "x", "hello ", " = ", "é ü", "100%", "[", "] ", "a.b", "\n", "日本", "$"]
 
